@@ -22,6 +22,12 @@ pub struct WireJob {
     /// put single newlines / spaces inside the JSON text
     #[serde(default)]
     pub pretty: bool,
+    /// capacity of the plugin's stdout pipe in bytes (0 = large); with a small pipe and `slow` the harness reads
+    /// the plugin's output only at explicit {"a":"read"} steps, so the plugin's writer is under back-pressure
+    #[serde(default)]
+    pub outcap: usize,
+    #[serde(default)]
+    pub slow: bool,
 }
 
 thread_local! {
@@ -98,11 +104,13 @@ pub fn run_job(job: WireJob) -> Vec<String> {
     rt.block_on(async move {
         let mut lines: Vec<String> = Vec::new();
         let (mut to_plugin, plugin_in) = tokio::io::duplex(1 << 20);
-        let (plugin_out, mut from_plugin) = tokio::io::duplex(1 << 20);
+        let (plugin_out, mut from_plugin) = tokio::io::duplex(if job.outcap > 0 { job.outcap } else { 1 << 20 });
         let mut stream: Vec<u8> = handshake_text().into_bytes();
         let hs_len = stream.len();
+        let mut msg_ends: Vec<usize> = Vec::new();
         for m in &job.msgs {
             stream.extend_from_slice(message_text(m, job.pretty).as_bytes());
+            msg_ends.push(stream.len());
         }
         lines.push(json!({"ev":"reset","run":job.run,"stream":stream,"hs":hs_len,
             "msgs": job.msgs.iter().map(|m| json!({"kind":m["kind"],"id":m["id"],"tag":m["tag"]})).collect::<Vec<_>>()}).to_string());
@@ -128,8 +136,15 @@ pub fn run_job(job: WireJob) -> Vec<String> {
             let a = step["a"].as_str().unwrap_or("");
             let mut ev = json!({"ev": a});
             match a {
-                "chunk" => {
-                    let n = (step["n"].as_u64().unwrap_or(1) as usize).min(stream.len() - pos);
+                "chunk" | "chunk_msgs" => {
+                    let want = if a == "chunk_msgs" {
+                        let upto = step["upto"].as_u64().unwrap_or(0) as usize;
+                        msg_ends.get(upto.saturating_sub(1)).copied().unwrap_or(hs_len).saturating_sub(pos)
+                    } else {
+                        step["n"].as_u64().unwrap_or(1) as usize
+                    };
+                    ev["ev"] = json!("chunk");
+                    let n = want.min(stream.len() - pos);
                     if n == 0 {
                         continue;
                     }
@@ -141,6 +156,24 @@ pub fn run_job(job: WireJob) -> Vec<String> {
                     pos += n;
                     ev["n"] = json!(n);
                     ev["pos"] = json!(pos);
+                }
+                "read" => {}
+                "finish_many" => {
+                    // several handlers return in the same instant (e.g. resolve() answering a whole set)
+                    let how = step["how"].as_str().unwrap_or("ok");
+                    let mut done = Vec::new();
+                    for t in step["tags"].as_array().cloned().unwrap_or_default() {
+                        let tag = t.as_u64().unwrap_or(0);
+                        if let Some(tx) = PENDING.with(|p| p.borrow_mut().remove(&tag)) {
+                            let _ = tx.send(if how == "ok" { Ok(json!({"result":"continue","echo":tag})) } else { Err(format!("boom {}", tag)) });
+                            done.push(tag);
+                        }
+                    }
+                    if done.is_empty() {
+                        continue;
+                    }
+                    ev["tags"] = json!(done);
+                    ev["how"] = json!(how);
                 }
                 "finish" => {
                     let tag = step["tag"].as_u64().unwrap_or(0);
@@ -158,11 +191,17 @@ pub fn run_job(job: WireJob) -> Vec<String> {
                 _ => continue,
             }
             settle().await;
-            // whatever the plugin wrote
+            // whatever the plugin wrote (a slow reader only looks at explicit read steps)
             let mut tmp = vec![0u8; 1 << 16];
-            loop {
+            while !job.slow || a == "read" {
                 match tokio::time::timeout(std::time::Duration::from_millis(0), from_plugin.read(&mut tmp)).await {
-                    Ok(Ok(n)) if n > 0 => outbuf.extend_from_slice(&tmp[..n]),
+                    Ok(Ok(n)) if n > 0 => {
+                        outbuf.extend_from_slice(&tmp[..n]);
+                        if job.slow {
+                            // let the writer refill the small pipe
+                            settle().await;
+                        }
+                    }
                     _ => break,
                 }
             }
@@ -189,6 +228,7 @@ pub fn run_job(job: WireJob) -> Vec<String> {
                 }
             }
             ev["pending_out"] = json!(outbuf.len());
+            ev["slow"] = json!(job.slow);
             ev["out"] = json!(out);
             lines.push(ev.to_string());
         }
